@@ -192,6 +192,8 @@ type Exec struct {
 	clockLast  *Int
 	ufDecl     map[string]bool
 	ntpdef     int
+	tpReg      []tpRegEntry
+	tpActive   map[string]bool
 	race       raceState
 	expvarAnon map[*value]*expvarObj
 	fs         fsModel
@@ -726,6 +728,7 @@ func (e *Exec) runPath(prefix []int64) {
 	e.inInit = 0
 	e.ufDecl = map[string]bool{}
 	e.ntpdef = 0
+	e.tpReg, e.tpActive = nil, nil
 	e.race = raceState{names: map[*value]string{}}
 	e.expvarAnon = nil
 	e.fs = fsModel{}
